@@ -94,6 +94,8 @@ def _pure(e):
         return True
     if isinstance(e, ast.Attribute):
         return _pure(e.value)
+    if isinstance(e, ast.Subscript):
+        return _pure(e.value) and _pure(e.slice)
     if isinstance(e, ast.UnaryOp) and isinstance(e.operand, ast.Constant):
         return True
     return False
